@@ -79,6 +79,32 @@ def hidden_state(check):
             check.ok("EFF-HIDDEN-STATE", q, "no solver attribute survives a step%s" % ((" except %s on linear models (JAC-GUARD)" % allowed) if allowed else ""), loc)
 
 
+def jac_cache_rounding(check):
+    """the Jacobian kept on the solver object for linear operators (the exemption above) is the constant
+    matrix in exact arithmetic only: when its entries are finite-difference quotients whose perturbation
+    scales with the data of the field it was computed from, it carries that field's rounding -- a used
+    solver, or a restart on a fresh one, is then not BIT-identical (the statement's word) to a fresh solve"""
+    proj = check.proj
+    from .c06 import run_jacobian
+    from ..affine import JacMat, FDQuot
+    c = proj.cls("integration.implicit")
+    fq = proj.resolve(c, "calc_jacobian")
+    ai, f, jm = run_jacobian(proj, c)
+    if not isinstance(jm, JacMat) or not jm.stores:
+        check.undecided("EFF-JAC-CACHE", fq.qualname, "Jacobian stores not found", fq.loc())
+        return
+    eps = [v.eps for (idx, v, sloc) in jm.stores if isinstance(v, FDQuot)]
+    datadep = [e for e in eps if type(e).__name__ == "EpsVal" and getattr(e, "rel", 0) != 0]
+    # is the matrix kept across calls at all?  (re-use path exists for linear model + linear reconstruction)
+    from ..minieval import MiniEval, SelfRef, Stub
+    kept = any(isinstance(n, ast.Call) and isinstance(n.func, ast.Name) and n.func.id == "hasattr" for n in ast.walk(fq.node)) or any(
+        isinstance(n, ast.Attribute) and n.attr == "jacobian_use" for n in ast.walk(fq.node))
+    if kept and datadep:
+        check.violation("EFF-JAC-CACHE", fq.qualname, "the Jacobian re-used for linear operators is a finite-difference quotient whose perturbation is proportional to the mean |data| of the field it was computed from: exact in real arithmetic, but in floating point it keeps that field's rounding (relative 1e-8): a solver object that has solved another field before, or solve(N) + restart(M) on a fresh solver, is not bit-identical to a fresh solve(N+M)", fq.loc(), key="jac-cache-fd")
+    else:
+        check.ok("EFF-JAC-CACHE", fq.qualname, "no finite-difference Jacobian with a data-dependent step is kept across calls", fq.loc())
+
+
 def _bookkeeping(proj, c):
     """attributes of the solver object managed by the driver: assigned in reset(), or in _solve from
     anything but a bare parameter (the CFL number `condition` is a legitimate input of a step)"""
@@ -197,8 +223,54 @@ def monitor_reset(check):
             check.ok("MON-RESET", g.qualname, "every entry of the monitor dictionary loses its previous 'output' before the run (guarded at most by the presence of 'output')", "%s:%d" % (g.module.relpath, ln))
 
 
+def monitor_dispatch(check):
+    """MON-DISPATCH: _parse_monitors hands EVERY entry of the monitor dictionary to its function at every
+    iteration -- the loop over the dictionary has no exit that depends on one entry (break / return): a
+    monitor that is not due must not end the dispatch of those after it"""
+    proj = check.proj
+    tm = proj.cls("integration.timemodel")
+    f = proj.resolve(tm, "_parse_monitors")
+    if f is None:
+        raise AnalysisError("_parse_monitors not found")
+    mparam = f.params[1] if len(f.params) > 1 else None
+    loops = [n for n in ast.walk(f.node) if isinstance(n, ast.For) and any(isinstance(x, ast.Name) and x.id == mparam for x in ast.walk(n.iter))]
+    if len(loops) != 1:
+        check.undecided("MON-DISPATCH", f.qualname, "%d loops over the monitor dictionary (expected 1)" % len(loops), f.loc())
+        return
+    lp = loops[0]
+    exits = []
+
+    def scan(stmts, inner):
+        for st in stmts:
+            if isinstance(st, (ast.Break,)) and not inner:
+                exits.append((st.lineno, "break"))
+            elif isinstance(st, ast.Return):
+                exits.append((st.lineno, "return"))
+            elif isinstance(st, (ast.For, ast.While)):
+                scan(st.body, True)
+                scan(st.orelse, inner)
+            elif isinstance(st, ast.If):
+                scan(st.body, inner)
+                scan(st.orelse, inner)
+            elif isinstance(st, (ast.With, ast.Try)):
+                scan(st.body, inner)
+                for h in getattr(st, "handlers", []):
+                    scan(h.body, inner)
+    scan(lp.body, False)
+    # the dispatch call: self._monitordict[...](entry) -- present in the loop
+    disp = [n for n in ast.walk(lp) if isinstance(n, ast.Call) and isinstance(n.func, ast.Subscript) and any(isinstance(x, ast.Attribute) and x.attr == "_monitordict" for x in ast.walk(n.func.value))]
+    if not disp:
+        check.violation("MON-DISPATCH", f.qualname, "no call of the registered monitor function inside the loop over the monitor dictionary", f.loc(), key="no-dispatch")
+    elif exits:
+        ln, kind = exits[0]
+        check.violation("MON-DISPATCH", f.qualname, "the loop over the monitor dictionary is left by `%s` (line %d): a monitor that is not due (or any per-entry condition) ends the dispatch, the monitors after it in dictionary order are not evaluated at this iteration" % (kind, ln), "%s:%d" % (f.module.relpath, ln), key="loop-exit")
+    else:
+        check.ok("MON-DISPATCH", f.qualname, "every entry of the monitor dictionary reaches its registered function: the loop has no break / return", f.loc())
+
+
 def monitors(check):
     monitor_reset(check)
+    monitor_dispatch(check)
     proj = check.proj
     tm = proj.cls("integration.timemodel")
     init = proj.resolve(tm, "__init__")
@@ -350,9 +422,13 @@ def _mon_record(proj, tm, f):
     found = [False]
     wrong = [None]
 
+    dominating = []     # statements executed on every path that reaches the record, before it
+
     def walk(stmts, conds):
         conds = list(conds)
         for st in stmts:
+            if not any(ap is x for x in ast.walk(st)) and not isinstance(st, (ast.If, ast.For, ast.While, ast.Try, ast.With)):
+                dominating.append(st)
             if any(ap is x for x in ast.walk(st)) and not isinstance(st, ast.If):
                 if any(implies_multiple(t, taken) for t, taken in conds):
                     found[0] = True
@@ -361,7 +437,8 @@ def _mon_record(proj, tm, f):
                         wrong[0] = unparse(t)
                 return True
             if isinstance(st, ast.If):
-                if walk(st.body, conds + [(st.test, True)]) or walk(st.orelse, conds + [(st.test, False)]):
+                has_ap = any(ap is x for x in ast.walk(st))
+                if has_ap and (walk(st.body, conds + [(st.test, True)]) or walk(st.orelse, conds + [(st.test, False)])):
                     return True
                 # early exit: the rest of the block runs only when the test failed
                 if st.body and isinstance(st.body[-1], (ast.Return, ast.Raise)) and not st.orelse:
@@ -371,6 +448,16 @@ def _mon_record(proj, tm, f):
                     return True
         return False
     walk(f.node.body, [])
+    # a recorded value that reads self.residual needs the residual OF THE CURRENT STATE: a call
+    # self.calcrhs(self.Qn) on every path to the record (not under a further condition)
+    if any(isinstance(n, ast.Attribute) and n.attr == "residual" for n in ast.walk(vexp)):
+        fresh = False
+        for st in dominating:
+            for n in ast.walk(st):
+                if isinstance(n, ast.Call) and isinstance(n.func, ast.Attribute) and n.func.attr == "calcrhs" and len(n.args) == 1 and isinstance(n.args[0], ast.Attribute) and n.args[0].attr == "Qn":
+                    fresh = True
+        if not fresh:
+            return False, "the recorded value reads self.residual, but self.calcrhs(self.Qn) is not executed on every path to the record: the value is the residual left by the last step (of the previous state, or the solved increment of an implicit step), stamped with the new iteration and time"
     if not found[0]:
         return False, ("the record is made when `%s` holds, which is not `cumulative iteration %% frequency == 0`" % wrong[0]) if wrong[0] else "the record is not conditional on cumulative iteration % frequency == 0"
     return True, ""
@@ -463,6 +550,11 @@ def body(check):
                          "non-deterministic sources, mutable defaults")
     check.assume("numpy/BLAS are deterministic; user callables (sources, section laws) are pure")
     hidden_state(check)
+    check.guarded("EFF-JAC-CACHE", "integration.implicitmodel.calc_jacobian", lambda: jac_cache_rounding(check))
+    # the exemption of the Jacobian attributes on linear operators (EFF-HIDDEN-STATE) is only as good as the
+    # guard that decides "linear": its two halves (C06's rules) are obligations of this property too
+    from . import c06
+    check.guarded("JAC-GUARD", "integration.implicitmodel.calc_jacobian", lambda: c06.jac_guard(check, check.proj))
     check.guarded("DISC-SCRATCH", "modeldisc", lambda: disc_scratch(check))
     check.guarded("MON-PURE", "integration.timemodel", lambda: monitors(check))
     check.guarded("EFF-NONDET", "flowdyn", lambda: nondet(check))
